@@ -282,7 +282,10 @@ class InlineTranslator:
         """return true if pred inside stm uses anonymous variables"""
         for lit in body:
             if is_predicate(lit) and Predicate(lit.atom.symbol.name, len(lit.atom.symbol.arguments)) == pred:
-                if any(map(lambda x: x == Variable(LOC, "_"), lit.atom.symbol.arguments)):
+                # also inside function terms; an interval would be expanded once per copy
+                if Variable(LOC, "_") in collect_ast(lit.atom.symbol, "Variable") or collect_ast(
+                    lit.atom.symbol, "Interval"
+                ):
                     return True
         return False
 
